@@ -185,6 +185,10 @@ def rule_path(ctx: Ctx) -> RuleReport:
             key = ext if ext in FS_SINKS else (d if d in FS_SINKS else None)
             if key is None:
                 continue
+            if key in ("os.symlink", "os.link"):
+                n_sinks += 1
+                rep.fail(Finding("C09-PATH", fi.module.rel, fi.qual, f"{key} while unpacking", f"`{short(c, 60)}` creates a link while unpacking an archive: its target is chosen by the archive (member content or link name), and the read-back that follows opens it — a member can then deliver any host file as its content", line=c.lineno))
+                continue
             n_sinks += 1
             rep.unit(fi.key)
             idxs = [FS_SINKS[key]] if FS_SINKS[key] == 0 else [0, FS_SINKS[key]]
